@@ -23,6 +23,9 @@ ASSUMPTIONS = ['cost = mean squared distance recomputed with the float64 '
                'with explicit proposals']
 
 
+STATE = {}
+
+
 def shards(tier):
     if tier == 'quick':
         return [dict(kind='sweeps', n=1600, parts=15, timeout=900),
@@ -205,7 +208,7 @@ def result_digest(res):
 
 def make_case(rng):
     form = ['cold', 'warm', 'props', 'props', 'hybrid', 'hybrid', 'KM_est',
-            'HY_est'][int(rng.integers(0, 8))]
+            'HY_est', 'warm_state'][int(rng.integers(0, 9))]
     if form == 'props' and rng.random() < 0.7:
         # tie-free data for the independent reference PAM
         X, info = cc.gen_data(rng, nmax=40, nmin=3, dtype=np.float64,
@@ -236,6 +239,20 @@ def execute(X, mname, k, iters, form, seed, inds, props, rs=None):
         return kmedoids.kmedoids(X, m, cluster_center_inds=list(inds),
                                  proposals=list(props), n_iters=iters,
                                  random_state=rs)
+    if form == 'warm_state':
+        # a supplied consistent state (centers, labels, distances); the SAME
+        # arrays are handed in on every call of this case, as a caller does
+        # who restarts the refinement from one k-centers state
+        st = STATE.get('warm_state')
+        if st is None or st[0] is not X:
+            ref = cc.ref_metric(mname)
+            Dm = np.stack([ref(X, X[i]) for i in inds], axis=1)
+            st = (X, Dm.argmin(axis=1), Dm.min(axis=1))
+            STATE['warm_state'] = st
+            STATE['warm_state_keep'] = (st[1].copy(), st[2].copy())
+        return kmedoids.kmedoids(X, m, cluster_center_inds=list(inds),
+                                 assignments=st[1], distances=st[2],
+                                 n_iters=iters, random_state=rs)
     if form == 'KM_est':
         # the estimator has no random_state argument: warm start, so that the
         # only randomness is the proposals (seeded through numpy's global RNG
@@ -299,6 +316,13 @@ def run_case(ctx, kind, rng, idx):
     ctx.sweeps = []
     res2 = execute(X, mname, k, iters, form, seed, inds, props)
     ctx.count('repro_pairs')
+    if form == 'warm_state':
+        k1, k2 = STATE['warm_state_keep']
+        if not (np.array_equal(STATE['warm_state'][1], k1) and
+                np.array_equal(STATE['warm_state'][2], k2)):
+            ctx.violation('pam.supplied-state-overwritten',
+                          'the labels/distances handed to kmedoids() were '
+                          'modified by the call')
     if form != 'KM_est' and result_digest(res) != result_digest(res2):
         ctx.violation('pam.not-reproducible',
                       'same seed %d gave different results' % seed)
